@@ -2,6 +2,10 @@
 """Developer helper: dump the SMT-LIB text of the obligations of one function whose name contains a substring.
 usage: .venv/bin/python tools/dump.py C01 tracklib.core.utils:addListToAF other-columns /tmp/x"""
 import sys, os
+import os as _os, sys as _sys
+if _os.environ.get("PYTHONHASHSEED") != "0":      # deterministic VC text: set iteration order must not vary between runs
+    _os.environ["PYTHONHASHSEED"] = "0"
+    _os.execv(_sys.executable, [_sys.executable] + (["-m", "checks.run"] + _sys.argv[1:] if __name__ == "__main__" and _sys.argv[0].endswith("run.py") and __package__ else _sys.argv))
 sys.path.insert(0, os.path.dirname(os.path.dirname(os.path.abspath(__file__))))
 from checks import deductive
 from pyvc.verify import verify_function
@@ -17,3 +21,5 @@ for o in r.obligations:
         print(fn, len(o["smt2"]))
         if o.get("smt2_rel"):
             open(fn[:-5] + ".rel.smt2", "w").write(o["smt2_rel"])
+        if o.get("smt2_cone"):
+            open(fn[:-5] + ".cone.smt2", "w").write(o["smt2_cone"])
